@@ -63,6 +63,7 @@ func runC09Disc(o *opts) (*summary, error) {
 	time.Sleep(timeout)
 	g0, f0 := settle()
 	maxElapsed, minElapsed, listed := time.Duration(0), time.Hour, 0
+	jm := startJitterMonitor() // timing self-check: the elapsed-time bound is judged only if the run's own clockwork was undisturbed
 	for i := 0; i < n; i++ {
 		t0 := time.Now()
 		v, err := u.GetDevices()
@@ -77,9 +78,11 @@ func runC09Disc(o *opts) (*summary, error) {
 			listed += len(v)
 		}
 	}
+	jm.stop()
+	disturbed := jm.max() > int64(timeout/time.Microsecond)*15/100
 	time.Sleep(2 * timeout)
 	g1, f1 := settle()
-	w.put(M{"op": "Quiesce", "what": "discovery-flood", "calls": n, "listed": listed, "floods": floods, "goroutines_before": g0, "goroutines_after": g1, "fds_before": f0, "fds_after": f1,
+	w.put(M{"op": "Quiesce", "what": "discovery-flood", "disturbed": disturbed, "jitter_us": jm.max(), "calls": n, "listed": listed, "floods": floods, "goroutines_before": g0, "goroutines_after": g1, "fds_before": f0, "fds_after": f1,
 		"elapsed_max_ms": int(maxElapsed / time.Millisecond), "elapsed_min_ms": int(minElapsed / time.Millisecond), "T_ms": int(timeout / time.Millisecond)}, "quiesce", "discovery-flood")
 	return w.close(), nil
 }
@@ -222,6 +225,39 @@ func runC11(o *opts) (*summary, error) {
 		time.Sleep(5 * time.Millisecond)
 		go func(i int, seq []string, seed int64) {
 			defer func() { <-sem }()
+			// timing self-check: a run during which a 1 ms sleeper woke up more than 15% of a tick late proves nothing
+			// about the window; it is repeated (up to 4 times), and dropped if the machine never calms down
+			for attempt := 0; ; attempt++ {
+				jm := startJitterMonitor()
+				rec := discoveryScenario(i, seq, seed+int64(attempt), lt, T, tick)
+				jm.stop()
+				if jm.max() <= int64(tick/time.Microsecond)*15/100 {
+					results <- rec
+					return
+				}
+				if attempt == 3 {
+					results <- nil
+					return
+				}
+			}
+		}(i, seq, seed)
+	}
+	disturbed := 0
+	for i := 0; i < nL; i++ {
+		if rec := <-results; rec != nil {
+			w.put(rec, "rigL", fmt.Sprintf("L%d", i))
+		} else {
+			disturbed++
+		}
+	}
+	s := w.close()
+	s.Extra = map[string]any{"rigL_disturbed": disturbed}
+	return s, nil
+}
+
+func discoveryScenario(i int, seq []string, seed int64, lt *layoutTables, T int, tick time.Duration) M {
+	{
+		{
 			r := rand.New(rand.NewSource(seed))
 			bc := listenUDP()
 			defer bc.Close()
@@ -299,13 +335,9 @@ func runC11(o *opts) (*summary, error) {
 			for _, b := range dgs {
 				delivered = append(delivered, M{"b": ints(b), "keep": true})
 			}
-			results <- M{"op": "GetDevices", "a": M{"serial": u32(0)}, "sent": []any{}, "route": M{"m": "none"}, "ncalls": 1, "delivered": delivered,
+			return M{"op": "GetDevices", "a": M{"serial": u32(0)}, "sent": []any{}, "route": M{"m": "none"}, "ncalls": 1, "delivered": delivered,
 				"ret": ret, "render": M{"string": "ok", "json": "ok"}, "cfg": projCfgRouted(cfg), "classes": seq, "rig": "L", "asked": src != nil,
 				"elapsed_ms": int(elapsed / time.Millisecond), "T_ms": int(time.Duration(T) * tick / time.Millisecond)}
-		}(i, seq, seed)
+		}
 	}
-	for i := 0; i < nL; i++ {
-		w.put(<-results, "rigL", fmt.Sprintf("L%d", i))
-	}
-	return w.close(), nil
 }
